@@ -109,6 +109,36 @@ def h_pressure(h, rep_from):
             h.claim(f'C01/pressure/identity/{tag}', h.close(got, v, 1e-12))
 
 
+def h_two_adsorbates(h, kind):
+    """the given adsorbate's (and temperature's) properties are used, whatever was converted before in the process: conversions
+    for adsorbate A and then for a different adsorbate B at the SAME temperature, and for B at a second temperature"""
+    from pygaps.units.converter_mode import c_pressure, c_loading
+    quiet()
+    T = h.real('T', pos=True)
+    T2 = h.real('T2', pos=True)
+    v = h.real('v')
+    worlds = {}
+    for tag in ('f', 'g'):
+        ads = stubs.fake_adsorbate(h, 'fakegas' if tag == 'f' else 'othergas', tag)
+        if h.sym:
+            ads._state.positivity(T)
+            ads._state.positivity(T2)
+        worlds[tag] = ads
+
+    def thermo(tag, temp):
+        Mg = worlds[tag]._state.molar_mass() * 1000
+        return O.Thermo(Mg, h.fun(f'rhomolar_{tag}', 0.0, temp) / 10 ** 6, h.fun(f'rhomolar_{tag}', 1.0, temp) / 10 ** 6), h.fun(f'psat_{tag}', temp)
+    for step, (tag, temp) in enumerate([('f', T), ('g', T), ('g', T2), ('f', T)]):
+        th, psat = thermo(tag, temp)
+        if kind == 'pressure':
+            got = c_pressure(v, 'absolute', 'relative', 'bar', None, adsorbate=worlds[tag], temp=temp)
+            want = O.pressure_from_pa(O.pressure_to_pa(v, 'absolute', 'bar', psat), 'relative', None, psat)
+        else:
+            got = c_loading(v, 'molar', 'volume_liquid', 'mmol', 'cm3', adsorbate=worlds[tag], temp=temp, basis_material='mass', unit_material='g')
+            want = O.loading_from_mol(O.loading_to_mol(v, 'molar', 'mmol', th, 'mass', 'g'), 'volume_liquid', 'cm3', th, 'mass', 'g')
+        h.claim(f'C01/two-adsorbates/{kind}/step{step}:{tag}', h.isnum(got) and h.close(got, want, 1e-12))
+
+
 def _cl(v, rf, rt, ads, T, mrep):
     from pygaps.units.converter_mode import c_loading
     return c_loading(v, rf[0], rt[0], rf[1], rt[1], adsorbate=ads, temp=T,
@@ -420,6 +450,8 @@ def obligations(tier):
         obs.append(Obligation(f'C01/containers/loading/{a}->{b}', h_containers, ('loading', a, b), bounds='k=2 rows', **kw))
     for (a, b) in itertools.product([('mass', 'kg'), ('volume', 'cm3'), ('molar', 'mol')], repeat=2):
         obs.append(Obligation(f'C01/containers/material/{a}->{b}', h_containers, ('material', a, b), bounds='k=2 rows', **kw))
+    for kind in ('pressure', 'loading'):
+        obs.append(Obligation(f'C01/two-adsorbates/{kind}', h_two_adsorbates, (kind,), bounds='two adsorbates, two temperatures, four conversions in one process', **kw))
     obs.append(Obligation('C01/refusal/pressure', h_refusal_pressure, (), bounds='bad label in {None, "", unknown string, wrong family}', **kw))
     obs.append(Obligation('C01/refusal/loading', h_refusal_loading, (), bounds='bad label in {None, "", unknown string, wrong family}', **kw))
     obs.append(Obligation('C01/refusal/material', h_refusal_material, (), bounds='bad label in {None, "", unknown string, wrong family}', **kw))
